@@ -110,8 +110,18 @@ ZeroCases ==
           : op \in {"*=", "&=", "<<=", "**="}}
 
 CtlCase(name, pre, stm, rty, must) == [name |-> name, pre |-> pre, stm |-> stm, rty |-> rty, must |-> must]
+\* a guard inside a closure over captured values: the branch the guard excludes is not evaluated — also not when the
+\* closure is made (its operation would fail on the guarded value)
+Guarded(name, d, op, bad) ==
+  CtlCase(name,
+          <<FnDecl("gd", <<P("d", WInt)>>, WFn(<<WInt>>, WInt),
+                   <<Ret(FnE(<<P("n", WInt)>>, WInt, <<If1(Bin("!=", V("d"), I(bad)), Ret(Bin(op, V("n"), V("d")))), Ret(I(-1))>>))>>)>>,
+          CallE(CallE(V("gd"), <<T(1, d)>>), <<T(2, 12)>>), WInt, <<1, 2>>)
 CtlCases ==
-  {CtlCase("if-" \o ToString(c), <<>>, If(TB(1, c), T(2, 10), T(3, 20)), WInt, IF c THEN <<1, 2>> ELSE <<1, 3>>) : c \in BOOLEAN}
+  {Guarded("guard-closure-div-" \o ToString(d), d, "/", 0) : d \in {0, 3}}
+  \cup {Guarded("guard-closure-mod-" \o ToString(d), d, "%", 0) : d \in {0, 5}}
+  \cup {Guarded("guard-closure-shift-" \o ToString(d), d, "<<", 64) : d \in {64, 2}}
+  \cup {CtlCase("if-" \o ToString(c), <<>>, If(TB(1, c), T(2, 10), T(3, 20)), WInt, IF c THEN <<1, 2>> ELSE <<1, 3>>) : c \in BOOLEAN}
   \cup {CtlCase("if-lit-" \o ToString(c), <<>>, If(B(c), T(1, 10), T(2, 20)), WInt, IF c THEN <<1>> ELSE <<2>>) : c \in BOOLEAN}
   \cup {CtlCase("ifset-" \o ToString(n), <<>>,
                IfSet("x", WInt, Tick(1, WMulti(<<WInt, WFloat>>), IF n THEN I(1) ELSE F(3)), T(2, 10), T(3, 20)), WInt,
